@@ -4,6 +4,7 @@ CONSTANTS
   MaxEnv = 16384
   Nums = {5, 6, 7, 9, 11, 12, 13}
   MaxFields = 2
-  ExportMin = -1
+  Fanout = 0
+  ExportMin = 99
   Broken = TRUE
 INVARIANTS Equiv NeverDowngraded OnlyListed
